@@ -604,6 +604,28 @@ class Explorer:
                         branches.append((dv, other))
                 if flips % 2 == 1 and is_bool:
                     branches = [((not dv) if isinstance(dv, bool) else dv, tg) for dv, tg in branches]
+                # an earlier `otherwise` decision on the same value restricts what is feasible now
+                prev = st.decided.get(key)
+                if isinstance(prev, tuple) and prev and prev[0] == "other" and mapping is not None:
+                    feasible = set(prev[1])
+                    nb = []
+                    for dv, tg in branches:
+                        if isinstance(dv, tuple) and dv[0] == "variant":
+                            if dv[1] in feasible:
+                                nb.append((dv, tg))
+                        elif isinstance(dv, tuple) and dv[0] == "other":
+                            rest2 = tuple(sorted(set(dv[1]) & feasible))
+                            if len(rest2) == 1:
+                                iv = [i for i, n_ in mapping.items() if n_ == rest2[0]][0]
+                                nb.append((("variant", rest2[0], iv), tg))
+                            elif rest2:
+                                nb.append((("other", rest2), tg))
+                        else:
+                            nb.append((dv, tg))
+                    branches = nb
+                    if not branches:
+                        self.finish(st, "infeasible", bb)
+                        return
                 for i, (dv, tg) in enumerate(branches):
                     s2 = st.fork() if i < len(branches) - 1 else st
                     s2.decisions.append((key, dv))
